@@ -54,6 +54,7 @@ void gen_glyphs (gen_t *g, int c, int src, int dst);
 void gen_region_op (gen_t *g);
 void gen_misc_alloc_op (gen_t *g, int kind, int src, int mask, int dst);
 void gen_cover_bilinear (gen_t *g, int src, int dst);
+void gen_alias (gen_t *g, int slot, int other, int fmt_idx);
 
 int  gen_find (gen_t *g, int want_bits, int want_used);    /* random slot index matching, or -1 */
 int  gen_free_slot (gen_t *g);
